@@ -149,6 +149,8 @@ def run(repo, chk):
     per_instance_state_obligations(repo, chk, "R10.4", [f"transform.{col.cls.name}", "transform.PteraTransformer"])
 
     # ---------------- R10.5
+    from .shared import eval_env_obligations
+    eval_env_obligations(repo, chk, "R10.5", "a function name found in none of them is refused with the selector error, wherever the selector is written (script, REPL, module)")
     from .shared import closure_reference_obligations
     closure_reference_obligations(repo, chk, "R10.5")
     cg = CallGraph(repo)
